@@ -47,14 +47,15 @@ func writeEvidence(a OrchArgs, info *props.Info, agg *Agg, violations int, wall 
 		known[k] = v
 	}
 	cov := map[string]interface{}{
-		"evaluations":         agg.Runs,
-		"distinct_nontrivial": len(agg.Sigs),
-		"rule":                info.Rule,
-		"samples":             samples,
-		"runs_per_hour":       int64(perHour),
-		"seeds":               agg.Seeds,
-		"seeds_per_hour":      float64(len(agg.Seeds)) / wall * 3600,
-		"race_build_runs":     agg.RaceRuns,
+		"evaluations":             agg.Runs,
+		"distinct_nontrivial":     len(agg.Sigs),
+		"rule":                    info.Rule,
+		"samples":                 samples,
+		"runs_per_hour":           int64(perHour),
+		"seeds":                   agg.Seeds,
+		"seeds_per_hour":          float64(len(agg.Seeds)) / wall * 3600,
+		"race_build_runs":         agg.RaceRuns,
+		"instrumented_build_runs": agg.InstrRuns,
 		"simulated_time": map[string]interface{}{
 			"logical_events": agg.Events,
 			"note":           "the system under simulation reads no clock and has no timers, so there is no simulated clock; coverage in time is reported as logical events (reader calls + API calls + scheduler yields)",
